@@ -2032,6 +2032,32 @@ fn main() {
     let mut rng = Rng::new(args.seed);
     let th = args.thorough();
 
+    // (0) the smallest members of the builder-program families first, so that a failure there is
+    // reported on a three-record input rather than on a CDN fixture: every root version with one
+    // FileDataID listed twice in a block, every archive-index offset width with a location above
+    // the 4-byte range (6-byte: non-zero archive index)
+    for ver in ROOT_VERSIONS {
+        let cf = if ver == RootVersion::V1 { 0 } else { ContentFlags::NO_NAME_HASH };
+        let nh = |h: u64| if ver == RootVersion::V1 { Some(h) } else { None };
+        let recs: Vec<RRec> = vec![(250, [3; 16], nh(7), LocaleFlags::ENUS, cf), (100, [1; 16], nh(5), LocaleFlags::ENUS, cf), (100, [2; 16], nh(6), LocaleFlags::ENUS, cf)];
+        let req = format!("rp {} {}", ver_num(ver), rrecs_text(&recs));
+        let (r, b) = cx.rp_resp(ver, &recs, &req);
+        cx.s.line(&req, &r);
+        if let Some(b) = b {
+            cx.m_line("root", &b);
+        }
+    }
+    for (ks, ob) in [(16u8, 4u8), (16, 5), (16, 6), (9, 5), (9, 6)] {
+        let top = 1u64 << (8 * ob as u32);
+        let ents: Vec<(Vec<u8>, u32, u64)> = (0..3u64).map(|i| (vec![0x30 - 0x10 * i as u8; ks as usize], 1000 + i as u32, top / 2 + 4096 * i)).collect();
+        let req = format!("ap {ks} {ob} {}", aents_text(&ents));
+        let (r, b) = cx.ap_resp(ks, ob, &ents, &req);
+        cx.s.line(&req, &r);
+        if let Some(b) = b {
+            cx.o_inline("aidx", &b);
+        }
+    }
+
     // (a) fixtures unmutated: the byte-identity test
     for i in 0..cx.fixtures.len() {
         cx.o_fixture(i, &[]);
